@@ -792,10 +792,95 @@ def run_grid_ownership(ctx):
                   lambda: {"first": a1, "after_edit": a2})
 
 
+def run_object_histories(ctx):
+    """objects that answered before give, after a change of *one* constant or after having
+    been drawn with other options, the answers of a new object in the same configuration"""
+    from hydrodiy.stat import transform
+    from hydrodiy.plot import violinplot
+    from hyverif.props.c12 import SETUP
+    from hyverif.core import same_result
+    import matplotlib
+    matplotlib.use("Agg")
+    import matplotlib.pyplot as plt
+    rng = np.random.default_rng(ctx.seed + 29)
+    x = np.array([0.0, 0.01, 0.05, 0.2, 0.5, 1.5, 2.5, 7.0])
+    for tn in ("BoxCox1lam", "BoxCox1nu", "LogSinh", "Manly", "Log", "BoxCox2", "Sinh",
+               "YeoJohnson", "Reciprocal"):
+        t0 = transform.get_transform(tn, **SETUP.get(tn, {}))
+        names = list(t0.constants.names) or list(t0.params.names)[:1]
+        for cname in names:
+            for trial in range(3):
+                t = transform.get_transform(tn, **SETUP.get(tn, {}))
+                old = float(t[cname])
+                lo = float((t.constants.mins if cname in t.constants.names else
+                            t.params.mins)[list(t.constants.names if cname in
+                                                t.constants.names else t.params.names
+                                                ).index(cname)])
+                new = [old * 0.025 + (lo if np.isfinite(lo) else 0.0) * 0.975 + 1e-3,
+                       old * 2.0 + 0.3, old + 1.0][trial]
+                censor = [0.0, 0.1, 0.0][trial]
+                ctx.api("Transform.backward_censored", 3)
+                ctx.tag("history:one-constant-changed-between-calls")
+                ctx.evaluated()
+                case_ = {"kind": "history", "class": tn, "changed": cname,
+                         "from": old, "to": new, "censor": censor}
+                try:
+                    y = np.asarray(t.forward(x.copy()), dtype=float)
+                    ys = np.concatenate([y, y - 0.7, y[:3] - 5.0])
+                    t.backward_censored(ys.copy(), censor)     # the earlier call
+                    t[cname] = new
+                    twin = transform.get_transform(tn, **SETUP.get(tn, {}))
+                    twin[cname] = new
+                    if float(twin[cname]) != float(t[cname]):
+                        continue
+                    a = np.asarray(t.backward_censored(ys.copy(), censor), dtype=float)
+                    b = np.asarray(twin.backward_censored(ys.copy(), censor), dtype=float)
+                except Exception as e:
+                    ctx.extra["history-constant:refused:" + type(e).__name__] += 1
+                    continue
+                ctx.check("history.constant-changed", same_result(a, b, 1e-13),
+                          f"stat.transform.{tn}.backward_censored|"
+                          "differs-from-a-new-object-after-a-constant-was-changed", case_,
+                          lambda: {"reused_object": a[:8], "new_object": b[:8]})
+    # a violin plot drawn zoomed (limits tighter than the data), then asked again
+    for it in range(6):
+        n_ = int(rng.integers(20, 200))
+        data = rng.normal(size=(n_, int(rng.integers(1, 4)))) * [1.0, 50.0][it % 2] + it
+        ctx.api("Violin.draw", 3)
+        ctx.tag("history:violin-drawn-with-limits")
+        ctx.evaluated()
+        try:
+            vl = violinplot.Violin(data)
+            snap = [np.array(np.asarray(getattr(vl, a_).values, dtype=float), copy=True)
+                    for a_ in ("kde_x", "kde_y", "stats")]
+            lo_, hi_ = np.quantile(data, [0.35, 0.6])
+            for kwd in ({}, {"ylim": (float(lo_), float(hi_))}, {}):
+                fig, ax = plt.subplots()
+                try:
+                    vl.draw(ax=ax, **kwd)
+                finally:
+                    plt.close(fig)
+            now = [np.asarray(getattr(vl, a_).values, dtype=float)
+                   for a_ in ("kde_x", "kde_y", "stats")]
+        except Exception as e:
+            ctx.extra["history-violin:refused:" + type(e).__name__] += 1
+            continue
+        ok = all(same_result(p_, q_, 0.0, 0.0) for p_, q_ in zip(snap, now))
+        ctx.check("history.violin-after-draw", ok,
+                  "plot.violinplot.Violin|profiles-differ-after-a-draw-with-limits",
+                  {"kind": "history", "what": "violin", "n": n_},
+                  lambda: {"kde_x_range_before": [float(np.nanmin(snap[0])),
+                                                  float(np.nanmax(snap[0]))],
+                           "kde_x_range_after": [float(np.nanmin(now[0])),
+                                                 float(np.nanmax(now[0]))]})
+
+
 def run(ctx):
     from hyverif.monitors import purity
     np.seterr(all="ignore")
     warnings.simplefilter("ignore")
+    if ctx.shard == 2 % ctx.nshards or ctx.replaying:
+        run_object_histories(ctx)
     if ctx.shard == 0 or ctx.replaying:
         run_histories(ctx)
     if ctx.shard == 1 % ctx.nshards or ctx.replaying:
